@@ -3,12 +3,18 @@
 import os
 d = os.path.dirname(os.path.abspath(__file__))
 t = open(os.path.join(d, "template.go.txt")).read()
-for pkg, fp, curve, a24, bits, mask, limbc in [
-    ("x25519", "fp25519", "C25519", "121666", "255", "validPk[31] &= (1 << (255 % 8)) - 1", "19"),
-    ("x448", "fp448", "C448", "39082", "448", "", "1"),
+for pkg, fp, curve, a24, bits, mask, limbc, fold in [
+    ("x25519", "fp25519", "C25519", "121666", "255", "validPk[31] &= (1 << (255 % 8)) - 1", "19", "38"),
+    ("x448", "fp448", "C448", "39082", "448", "", "1", "0"),
 ]:
     s = t
-    for k, v in {"@PKG@": pkg, "@FP@": fp, "@CURVE@": curve, "@A24@": a24, "@BITS@": bits, "@MASK@": mask, "@LIMBC@": limbc}.items():
+    for k, v in {"@PKG@": pkg, "@FP@": fp, "@CURVE@": curve, "@A24@": a24, "@BITS@": bits, "@MASK@": mask, "@LIMBC@": limbc, "@FOLD@": fold}.items():
         s = s.replace(k, v)
     s = "\n".join(l.rstrip() for l in s.split("\n"))
     open("/verif/harness/dh/%s/zz_verif_c06_test.go" % pkg, "w").write(s)
+
+ft = open(os.path.join(d, "fp_template.go.txt")).read()
+for fp, fold in [("fp25519", "38"), ("fp448", "0")]:
+    s = ft.replace("@FP@", fp).replace("@FOLD@", fold)
+    os.makedirs("/verif/harness/math/%s" % fp, exist_ok=True)
+    open("/verif/harness/math/%s/zz_verif_c06_test.go" % fp, "w").write(s)
